@@ -66,6 +66,7 @@ def pv_expr(e):
     if t == "filter": return ("filter", e[1], pv_expr(e[2]), [pv_expr(a) for a in e[3]])
     if t == "test": return ("test", e[1], pv_expr(e[2]), [pv_expr(a) for a in e[3]], e[4])
     if t == "call": return ("call", e[1], [pv_expr(a) for a in e[2]], [(k, pv_expr(v)) for k, v in e[3]])
+    if t == "map": return ("map", [(pv_expr(k), pv_expr(v)) for k, v in e[1]])
     raise ValueError(t)
 
 
@@ -119,7 +120,7 @@ def cv(v):
     if isinstance(v, int): return ("i", v)
     if isinstance(v, str): return ("s", v)
     if isinstance(v, list): return ("l", tuple(cv(x) for x in v))
-    if isinstance(v, dict): return ("m", tuple(sorted((k, cv(x)) for k, x in v.items())))
+    if isinstance(v, dict): return ("m", tuple(sorted((k, cv(x)) for k, x in v.items())))      # JSON object keys are strings
     return ("?", json.dumps(v))
 
 
@@ -136,6 +137,14 @@ def dec_value(a, i):
         for _ in range(n):
             v, i = dec_value(a, i); out.append(v)
         return ("l", tuple(out)), i
+    if t == 6:
+        n = a[i + 1]; i += 2; out = []
+        for _ in range(n):
+            k, i = dec_value(a, i); v, i = dec_value(a, i)
+            # serde_json prints every key as a string
+            ks = k[1] if k[0] == "s" else str(k[1]) if k[0] == "i" else ("true" if k[1] else "false") if k[0] == "b" else "null"
+            out.append((ks, v))
+        return ("m", tuple(sorted(out))), i
     return ("?", t), i + 1
 
 
@@ -169,7 +178,7 @@ def model_stream(line, N):
     simple = {5: "GetItem", 14: "Neg", 16: "Not", 20: "Emit", 22: "PushWith", 24: "PushDidNotIterate", 25: "PopFrame",
               26: "PopLoopFrame", 31: "PushAutoEscape", 32: "PopAutoEscape", 34: "EndCapture", 36: "DupTop",
               37: "DiscardTop", 38: "Swap", 40: "Return", 41: "IsUndefined", 43: "GetClosure"}
-    onearg = {10: "BuildKwargs", 12: "UnpackList", 21: "PushLoop", 23: "Iterate", 27: "Jump", 28: "JumpIfFalse",
+    onearg = {10: "BuildKwargs", 12: "UnpackList", 44: "BuildMap", 21: "PushLoop", 23: "Iterate", 27: "Jump", 28: "JumpIfFalse",
               29: "JumpIfFalseOrPop", 30: "JumpIfTrueOrPop"}
     for _ in range(n):
         op, k = line[i], line[i + 1]; a = line[i + 2:i + 2 + k]; i += 2 + k
@@ -178,7 +187,7 @@ def model_stream(line, N):
         elif op == 1: out.append(("EmitRaw", "".join(chr(c) for c in a)))
         elif op == 2: out.append(("StoreLocal", nm(a[0])))
         elif op == 3: out.append(("Lookup", nm(a[0])))
-        elif op == 4: out.append(("GetAttr", REV_ATTRS.get(a[0], "?attr")))
+        elif op == 4: out.append(("GetAttr", langenc.attr_name(a[0])))
         elif op == 6: out.append(("LoadConst", dec_value(a, 0)[0]))
         elif op == 7: out.append(("LoadConst", ("s", nm(a[0]))))
         elif op == 8:
